@@ -126,6 +126,7 @@ func ruleGGate(p *Program, r *Reporter, fns []*ssa.Function) {
 				if h, isHolder := gateHolders[FuncKey(fn)]; isHolder {
 					// cross-function holder: verify the named release sites exist
 					okAll := true
+					bad := "cross-function holder but the recorded release function no longer releases a gate: " + h.reason
 					for _, rf := range h.releaseIn {
 						f := p.LookupFunc(rf[0], rf[1], rf[2])
 						found := false
@@ -134,10 +135,21 @@ func ruleGGate(p *Program, r *Reporter, fns []*ssa.Function) {
 						}
 						if !found {
 							okAll = false
+							continue
+						}
+						// the release function must release on EVERY path (assuming a gate is configured),
+						// unless it is the acquiring function itself (which hands the release over)
+						if f == fn {
+							continue
+						}
+						if leaks := holderReleaseLeaks(f); len(leaks) > 0 {
+							okAll = false
+							bad = fmt.Sprintf("the slot taken here is to be released by %s, but that function has %d path(s) that return without releasing the gate (first: exit at line %d): a failed %s leaks the slot for good",
+								FuncKey(f), len(leaks), p.Fset.Position(leaks[0].Exit.Pos()).Line, fn.Name())
 						}
 					}
 					r.Check(okAll, "G-gate", construct, site,
-						"cross-function holder ("+h.reason+"); release site present", "cross-function holder but the recorded release function no longer releases a gate: "+h.reason)
+						"cross-function holder ("+h.reason+"); every recorded release function releases the gate on all its paths", bad)
 					continue
 				}
 				if isParamRooted(fn, path) {
@@ -334,6 +346,68 @@ func isLockWrapper(fn *ssa.Function) bool {
 	}
 	_, _, ok := mutexOp(calls[0])
 	return ok
+}
+
+// holderReleaseLeaks explores every path of a holder's release function
+// (CommitBatch, batchTx.Close, iter.Close) from entry, assuming a gate is
+// configured (`x.Gate != nil`, `t.releaseGate != nil` are true), and returns
+// the exits reached without a (deferred) Gate.Done or a call of the
+// release-closure field.
+func holderReleaseLeaks(f *ssa.Function) []Leak {
+	isGateish := func(v ssa.Value) bool {
+		t := v.Type()
+		if IsNamed(t, "go4.org/syncutil", "Gate") {
+			return true
+		}
+		if _, ok := t.Underlying().(*types.Signature); ok {
+			if u, ok := v.(*ssa.UnOp); ok && u.Op == token.MUL {
+				if fa, ok := u.X.(*ssa.FieldAddr); ok && fieldName(fa.X.Type(), fa.Field) == "releaseGate" {
+					return true
+				}
+			}
+		}
+		return false
+	}
+	assume := func(cond ssa.Value) (bool, bool) {
+		bo, ok := cond.(*ssa.BinOp)
+		if !ok || (bo.Op != token.NEQ && bo.Op != token.EQL) {
+			return false, false
+		}
+		var other ssa.Value
+		if IsNilConst(bo.Y) {
+			other = bo.X
+		} else if IsNilConst(bo.X) {
+			other = bo.Y
+		}
+		if other != nil && isGateish(other) {
+			return true, bo.Op == token.NEQ
+		}
+		return false, false
+	}
+	stop := func(in ssa.Instruction) bool {
+		ci, ok := in.(ssa.CallInstruction)
+		if !ok {
+			return false
+		}
+		c := CallSite{f, ci}
+		if c.IsStatic("go4.org/syncutil", "Gate", "Done") {
+			return true
+		}
+		cc := c.Common()
+		if !cc.IsInvoke() {
+			if u, ok := cc.Value.(*ssa.UnOp); ok && u.Op == token.MUL {
+				if fa, ok := u.X.(*ssa.FieldAddr); ok && fieldName(fa.X.Type(), fa.Field) == "releaseGate" {
+					return true
+				}
+			}
+		}
+		return false
+	}
+	first := f.Blocks[0].Instrs[0]
+	if stop(first) {
+		return nil
+	}
+	return LeakingExits(PathQuery{Start: first, Stop: stop, Assume: assume, IgnorePanics: true})
 }
 
 // mentionsGateDone reports whether fn (deep) calls (*Gate).Done or takes it as
